@@ -19,6 +19,32 @@ func planFaults(r *core.Rand, w *Workload) {
 	if r.Chance(0.1) {
 		k = 3
 	}
+	if r.Chance(0.12) {
+		// mass failure: most files of the widest import list fail at once
+		wide := 0
+		for i, f := range w.Files {
+			if len(f.Imports) > len(w.Files[wide].Imports) {
+				wide = i
+			}
+		}
+		seenT := map[int]bool{}
+		for _, im := range w.Files[wide].Imports {
+			f := w.Files[im.To]
+			if seenT[im.To] || im.To == wide || im.To == 0 || f.Kind != "sysl" || r.Chance(0.2) {
+				continue
+			}
+			seenT[im.To] = true
+			ft := Fault{File: im.To, Certain: true, Kind: []string{"enoent", "eio-open", "garbage-import", "eacces"}[r.Intn(4)]}
+			if f.Remote {
+				ft.Kind = "retrieve-error"
+			}
+			applyContentFault(f, &ft)
+			w.Faults = append(w.Faults, ft)
+		}
+		if len(w.Faults) > 0 {
+			return
+		}
+	}
 	// prefer targets with siblings in flight: files that are not the only import of
 	// their parent, and the last file of a cycle
 	weight := make([]int, n)
@@ -62,7 +88,9 @@ func planFaults(r *core.Rand, w *Workload) {
 		ft := Fault{File: i}
 		if r.Chance(0.75) {
 			ft.Certain = true
-			if f.Kind != "sysl" {
+			if f.Kind == "dat" {
+				ft.Kind = "undetectable-format"
+			} else if f.Kind != "sysl" {
 				ft.Kind = []string{"enoent", "eacces", "eio-open", "eio-read", "bad-foreign"}[r.Intn(5)]
 			} else {
 				ft.Kind = certainKinds[r.Intn(len(certainKinds))]
@@ -75,6 +103,9 @@ func planFaults(r *core.Rand, w *Workload) {
 			if f.Remote && ft.Kind == "close-error" {
 				ft.Kind = "truncate"
 			}
+		}
+		if ft.Kind == "bad-foreign" {
+			ft.Param = r.Intn(3)
 		}
 		switch ft.Kind {
 		case "eio-read", "truncate", "flip":
@@ -97,9 +128,16 @@ func applyContentFault(f *FileSpec, ft *Fault) {
 	case "garbage-body":
 		f.Text = f.Text + garbageLine
 	case "bad-foreign":
-		switch f.Kind {
-		case "swagger", "openapi3":
+		switch {
+		case f.Kind == "swagger" || f.Kind == "openapi3":
 			f.Text = "{{{ not yaml ::: [\n"
+		case f.Kind == "pbjson" && ft.Param%3 == 1:
+			// well-formed JSON, but a document of some other format
+			f.Text = `{"openapi": "3.0.0", "info": {"title": "not a sysl model", "version": "1"}, "paths": {}}`
+		case f.Kind == "pbjson" && ft.Param%3 == 2:
+			f.Text = `{"appz": {"X": {"name": {"part": ["X"]}}}}` // misspelt key
+		case f.Kind == "textpb" && ft.Param%3 != 0:
+			f.Text = "schema_version: 3\nrecords: {\n id: 7\n}\n" // text-proto of another schema
 		default:
 			f.Text = "\x00\x01 not a model {{{"
 		}
